@@ -70,7 +70,12 @@ LOCAL OnOpPlain(e, m) ==
                      [] OTHER -> m2
          IN m3
 
+\* the harness writes a version that is none of the universe's as "path/?text"
+LOCAL Unknown(node) == SubSeq(node, SlashIdx(node) + 1, SlashIdx(node) + 1) = "?"
 LOCAL OnOp(e, m) ==
+    IF e.err = "" /\ \E r \in {e.after, e.again} : \E k \in DOMAIN r : Unknown(r[k])
+    THEN V(m, "C11", "a requirement edit selected a version that the queried revision does not denote", e.kind)
+    ELSE
     IF ~Aliased(e.before) THEN OnOpPlain(e, m)
     ELSE LET r == OnOpPlain(e, [m EXCEPT !.viol = {}])
              lost == "an existing requirement name was not preserved"
